@@ -9,7 +9,8 @@ Clauses tested literally on iOpt.evolvent.evolvent.Evolvent.GetImage (no model i
      x = 1 maps to the cell of the last subinterval, every image is strictly inside the box.
  (b) random, all N*m <= 50, N = 2..5: random subintervals (incl. the last ones: x within 4e-9 of 1, the first ones,
      and neighbours of high level boundaries): two/three points of one subinterval -> same cell, centre, strictly
-     inside; distinct subintervals of one configuration -> distinct cells; x = 1 -> cell of the last subinterval.
+     inside; distinct subintervals of one configuration (the sampled ones, their neighbours i-1, i+1, the sibling i^1
+     and one subinterval differing in one random binary digit) -> distinct cells; x = 1 -> cell of the last subinterval.
  (c) N = 1 (no grid: the map is affine): image within rounding of lo + x*(hi-lo), inside [lo, hi] up to rounding,
      monotone in x."""
 import os
@@ -137,6 +138,18 @@ def _random_case(r, viol, stats, seen_cfg):
         cell = _check_points(ev, g, n, m, i, xs, viol, dict(ctx, subinterval=i))
         cases.append(i)
         if cell is not None:
+            # the neighbouring subintervals and the sibling i^1 must have other cells (cheap local injectivity probe)
+            for i2 in {i - 1, i + 1, i ^ 1, i ^ (1 << r.randrange(n * m))} - {i}:
+                if 0 <= i2 < tot:
+                    c2 = g.cell(ev.GetImage(oc.left_end(i2, n, m)))
+                    if c2 == cell:
+                        viol.append(dict(ctx, what="two subintervals map to the same cell", subinterval=i, other=i2,
+                                         cell=list(cell)))
+                    elif c2 not in cells:
+                        cells[c2] = i2
+                    elif cells[c2] != i2:
+                        viol.append(dict(ctx, what="two subintervals map to the same cell", subinterval=i2,
+                                         other=cells[c2], cell=list(c2)))
             if cell in cells and cells[cell] != i:
                 viol.append(dict(ctx, what="two subintervals map to the same cell", subinterval=i, other=cells[cell],
                                  cell=list(cell)))
@@ -148,7 +161,7 @@ def _random_case(r, viol, stats, seen_cfg):
         viol.append(dict(ctx, what="x = 1 does not map to the last cell", y1=oc.lst(y1), ylast=oc.lst(ylast)))
     if (tot - 1) not in cases:
         c1 = g.cell(y1)
-        if c1 in cells:
+        if c1 in cells and cells[c1] != tot - 1:
             viol.append(dict(ctx, what="two subintervals map to the same cell", subinterval=tot - 1, other=cells[c1],
                              cell=list(c1)))
     stats["nm_hist"][str(n * m // 10 * 10)] = stats["nm_hist"].get(str(n * m // 10 * 10), 0) + 1
@@ -180,7 +193,7 @@ def _n1_case(r, viol):
 
 def run(tier, r):
     bud = oc.Budget(oc.tier_seconds(tier, 90.0, 1500.0))     # safety cap only; the case counts below are fixed
-    nrandom = 7000 if tier == "quick" else 60000
+    nrandom = 4500 if tier == "quick" else 40000
     viol = []
     stats = {"exhaustive_configs": [], "near_one": 0, "nm_hist": {}, "dims": {}, "n1_points": 0, "random_configs": 0}
     explored = 0
@@ -245,7 +258,7 @@ def replay(case):
         ev = oc.mk_ev(lo, hi, n, m)
         g = oc.Grid(lo, hi, m)
         tot = 2 ** (n * m)
-        idx = [case[k] for k in ("subinterval", "other") if k in case] or [tot - 1]
+        idx = sorted({case[k] for k in ("subinterval", "other") if k in case}) or [tot - 1]
         cells = {}
         for i in idx:
             xs = [oc.left_end(i, n, m), oc.near_right_end(i, n, m)]
